@@ -779,7 +779,7 @@ int main(int argc, char** argv) {
     for (auto& c : load_corpus(argc > 4 ? argv[4] : NULL))
         if (c.first == "std") from_payload(c.second);
     Rng g(seed * 0x100000001B3ULL + 12345);
-    int layouts = thorough ? 16000 : 640;
+    int layouts = thorough ? 16000 : 400;
     for (int li = 0; li < layouts; li++) {
         uint64_t ls = g.next() >> 1;
         run_case(out, ls, (unsigned)(li & 31));
